@@ -519,11 +519,12 @@ def _r5(ctx, rep, se, cfg):
     for n in cfg.live_nodes():
         if n.kind == "stmt" and isinstance(n.ast, ast.Assign) and utext(n.ast.targets[0]) == "order_exposure":
             gs = [(utext(g.exprs[0]), pol) for g, pol in cfg.guards(n.id)]
+            from sa.kinds import expanded as _exp5
             if ("order.side == 'BACK'", True) in gs:
-                tab["BACK"] = utext(n.ast.value)
+                tab["BACK"] = _exp5(se, n.ast.value)
             elif ("order.side == 'BACK'", False) in gs:
-                tab["LAY"] = utext(n.ast.value)
-    rep.check(tab == {"BACK": "size", "LAY": "(price - 1) * size"}, "R5",
+                tab["LAY"] = _exp5(se, n.ast.value)   # `price` read back as the order's price, however it is named
+    rep.check(tab == {"BACK": "size", "LAY": "(order.order_type.price - 1) * size"}, "R5",
               key(se, None, "per-order risk: BACK stake, LAY (price - 1) x stake"), se, None, str(tab))
 
 
